@@ -134,6 +134,8 @@ func vfLifecycle(c11 bool) {
 	events := zzvf.Param("events")
 	flushes := zzvf.Param("flushes")
 	discs := zzvf.Param("disconnects")
+	var lagged *vfClient
+	justLagged := false
 	zzvf.Reach("c09-start")
 	for step := 0; step < 30; step++ {
 		pend := w.mq.pending()
@@ -222,6 +224,15 @@ func vfLifecycle(c11 bool) {
 					// now on with this cid is requested for a closed connection
 					discMark = len(w.mq.reqs)
 				}
+				// lagdisc: the connection's worker may be busy, so that the
+				// dispose stays queued while the next external action
+				// happens (callbacks accepted meanwhile queue up behind it)
+				if zzvf.ParamOr("lagdisc", 0) == 1 && zzvf.Choose("worker-busy-at-disconnect", 2) == 1 {
+					zzvf.Tag("dispose-queued-behind-busy-worker")
+					w.lag(r.cl, true)
+					lagged = r.cl
+					justLagged = true
+				}
 				w.disconnect(r.cl)
 			}
 		default:
@@ -236,10 +247,23 @@ func vfLifecycle(c11 bool) {
 			runs[0].answer(req, o)
 		}
 		w.settle()
+		if lagged != nil && !justLagged {
+			w.lag(lagged, false)
+			lagged = nil
+			w.settle()
+		}
+		justLagged = false
 		for _, r := range runs {
 			r.observe()
 		}
-		vfCheckCacheInvariant(w)
+		if lagged == nil {
+			vfCheckCacheInvariant(w)
+		}
+	}
+	if lagged != nil {
+		w.lag(lagged, false)
+		lagged = nil
+		w.settle()
 	}
 	if c11 && discMark >= 0 {
 		last := runs[len(runs)-1]
